@@ -181,7 +181,7 @@ theorem migrate_in_one_tx :
     (migrateOutsideTx.all (fun st => st.take 5 == ["CREATE", "TABLE", "IF", "NOT", "EXISTS"])) = true ∧
     ((migrateInTx.take 3).all (fun st => (st.drop 2).take 3 == ["IF", "NOT", "EXISTS"])) = true := by decide
 """),
- "C06": ("Ebu.Proofs.Shutdown\nimport Ebu.Model.Inflight\nimport Ebu.Generated.Consts", """/-! ### the counter behind `Wait` (M2w) and what the CURRENT source does with its condition variable -/
+ "C06": ("Ebu.Proofs.Shutdown\nimport Ebu.Model.Inflight\nimport Ebu.Generated.Consts\nimport Ebu.Props.C03", """/-! ### the counter behind `Wait` (M2w) and what the CURRENT source does with its condition variable -/
 
 /-- the wake-up discipline of the source, read off `inflight.done` on every run -/
 def sourceWake : Ebu.Inflight.Wake :=
@@ -202,6 +202,11 @@ theorem no_waiter_left_behind (ops : List Ebu.Inflight.Op) :
 theorem wait_returns_only_idle (s : Ebu.Inflight.St) (op : Ebu.Inflight.Op) (g : Nat)
     (hnew : g ∈ (Ebu.Inflight.step sourceWake s op).returned) (hold : g ∉ s.returned) : s.n = 0 :=
   Ebu.Inflight.returns_only_when_idle sourceWake s op g hnew hold
+
+/-- the in-flight counter is only touched under its mutex in the CURRENT source: `add` and `done` cannot lose an update
+(a lock-free `add` next to a locked `n--` would) -/
+theorem inflight_counter_locked : Ebu.Locks.Discipline Ebu.Generated.accessFacts = true :=
+  Ebu.Props.C03.facts_discipline
 
 /-- the obligation is not decoration: with `Signal` two waiters and one finishing handler leave a waiter parked -/
 theorem signal_would_lose_a_waiter :
@@ -279,6 +284,19 @@ registry mutator of the CURRENT source looks up and updates `shard.handlers` ins
 (fact table regenerated on every run), so concurrent callers cannot lose or resurrect each other's registrations -/
 theorem registry_calls_atomic : Ebu.Locks.RegistryOpsAtomic Ebu.Generated.accessFacts = true :=
   Ebu.Props.C03.facts_registry_ops_atomic
+"""),
+ "C04": ("Ebu.Props.C03", """/-- the once claim is an atomic compare-and-swap on `executed` (the only location the CURRENT source accesses
+atomically, and it does so everywhere), and the retirement of a fired once handler – like every other registry update –
+happens inside ONE write-locked critical section, so a concurrent Unsubscribe cannot write a spent handler back -/
+theorem once_claim_and_retirement_atomic : Ebu.Locks.Discipline Ebu.Generated.accessFacts = true ∧
+    Ebu.Locks.RegistryOpsAtomic Ebu.Generated.accessFacts = true :=
+  ⟨Ebu.Props.C03.facts_discipline, Ebu.Props.C03.facts_registry_ops_atomic⟩
+"""),
+ "C07": ("Ebu.Props.C03", """/-- the ticket counter, the serving counter and the in-flight counter are only touched under their mutexes in the
+CURRENT source (fact table regenerated on every run): tickets are handed out without lost updates, which is what the
+atomic `ticket` step of M2 assumes -/
+theorem ticket_counters_locked : Ebu.Locks.Discipline Ebu.Generated.accessFacts = true :=
+  Ebu.Props.C03.facts_discipline
 """),
  "C02": ("Ebu.Props.C03", """/-- the atomic subscribe / removal steps of M2 are what the CURRENT source does: every registry mutator looks up
 and updates `shard.handlers` inside one write-locked critical section (fact table regenerated on every run) -/
